@@ -4,7 +4,7 @@
    compartment-count vector, all positive parameters and every dt > 0. *)
 From Coq Require Import Reals List.
 From JV Require Import Prim TreeSolve TreeSolveFacts TreeAnalysis Cable GCellUtils CableFacts CableConservation.
-From JV Require Import HinesArr HinesCheck HinesArrFacts HinesIdx AsmStruct AssembleM AsmIdx AssembleGraph GraphMax GraphRest.
+From JV Require Import HinesArr HinesCheck HinesArrFacts HinesIdx AsmStruct AssembleM AsmIdx AssembleGraph GraphMax GraphRest HinesIdxF AsmIdxF GraphRestF.
 Import ListNotations.
 Local Open Scope R_scope.
 
@@ -117,3 +117,29 @@ Theorem C02_graph_maximum_principle : forall (ly : layout) (tp : topo), wf ly tp
   (forall c, (c < ncomp)%nat -> lo <= v c <= hi /\ vt c * lo <= ct c <= vt c * hi) ->
   forall c, (c < ncomp)%nat -> lo <= x (mask c) <= hi.
 Proof. exact graph_bounds. Qed.
+
+(* ---- the same for NETWORKS (every forest of cells; Model/HinesIdxF.v, Model/AsmIdxF.v) ---- *)
+Theorem C02_array_level_network_no_overshoot :
+  forall (ps ns : list nat) (rs : list bool) (es : list (edge R)) (v vt ct : nat -> R) (dt lo hi : R),
+  (1 <= length ps)%nat -> (forall b, (b < length ps)%nat -> is_root rs b = false -> (nth b ps 0 < b)%nat) ->
+  (forall b, (b < length ps)%nat -> (1 <= nth b ns 0)%nat) ->
+  map strip es = triples_ofF ps ns rs ->
+  0 < dt -> (forall e, In e es -> 0 < e_g R e) -> (forall i, (i < total ps ns)%nat -> 0 <= vt i) ->
+  (forall c, (c < total ps ns)%nat -> lo <= v c <= hi /\ vt c * lo <= ct c <= vt c * hi) ->
+  let ly := layout_ofF ps ns rs in
+  let s0 := assemble R Rplus Rminus Rmult 0 1 (nthD (mask_ofF ps ns rs)) (total ps ns) es v vt ct dt (group_ofF ps rs) (child_inds_ofF ps rs) (par_inds_ofF ps rs) in
+  let out := sv (run R Rplus Rminus Rmult Rdiv 0 1 ly (ops_of_forest ps ns rs) s0) in
+  forall b k, (b < length ps)%nat -> (k < ncomp_of ns b)%nat -> lo <= out (cs_ofF ps ns rs b + k)%nat <= hi.
+Proof. exact network_no_overshoot. Qed.
+
+Theorem C02_array_level_network_rest_is_preserved : forall (ps ns : list nat) (rs : list bool),
+  (1 <= length ps)%nat -> (forall b, (b < length ps)%nat -> is_root rs b = false -> (nth b ps 0 < b)%nat) ->
+  (forall b, (b < length ps)%nat -> (1 <= nth b ns 0)%nat) ->
+  forall (es : list (edge R)), map strip es = triples_ofF ps ns rs ->
+  forall (v vt ct : nat -> R) (dt V : R),
+  0 < dt -> (forall e, In e es -> 0 < e_g R e) -> (forall i, (i < total ps ns)%nat -> 0 <= vt i) ->
+  (forall c, (c < total ps ns)%nat -> v c = V) -> (forall c, (c < total ps ns)%nat -> ct c = vt c * V) ->
+  let s0 := assemble R Rplus Rminus Rmult 0 1 (nthD (mask_ofF ps ns rs)) (total ps ns) es v vt ct dt (group_ofF ps rs) (child_inds_ofF ps rs) (par_inds_ofF ps rs) in
+  let out := sv (run R Rplus Rminus Rmult Rdiv 0 1 (layout_ofF ps ns rs) (ops_of_forest ps ns rs) s0) in
+  forall b k, (b < length ps)%nat -> (k < ncomp_of ns b)%nat -> out (cs_ofF ps ns rs b + k)%nat = V.
+Proof. exact network_at_rest_stays_at_rest. Qed.
